@@ -55,6 +55,7 @@ type LoopContract struct {
 	Ordinal    int
 	Exits      []Clause // asserted on every edge leaving the loop
 	Entries    []Clause // asserted on every edge entering the loop from outside (not assumed, not kept)
+	Backs      []Clause // asserted on every back edge (another iteration starts), body locals in scope; not assumed
 	Invariants []Clause
 	Modifies   []Expr // extra heap locations havocked (besides syntactic stores)
 	Decreases  *Clause
@@ -256,6 +257,15 @@ func (cs *ContractSet) LoadContractFile(path, pkgPath string) error {
 				return err
 			}
 			cur.AssumedEnsures = append(cur.AssumedEnsures, c)
+		case "back":
+			c, err := mkClause()
+			if err != nil {
+				return err
+			}
+			if curLoop == nil {
+				return fmt.Errorf("%s:%d: back outside loop", path, ln)
+			}
+			curLoop.Backs = append(curLoop.Backs, c)
 		case "entry":
 			c, err := mkClause()
 			if err != nil {
